@@ -41,6 +41,13 @@ Qed.
 Lemma go_capSet_Has_eq c cap : go_client_capSet_Has c cap = Ok (cap_has c cap).
 Proof. reflexivity. Qed.
 
+(* stage 7: the two queries of client/connection.go a user makes after negotiation *)
+Lemma go_HasCapability_eq c cap : go_client_Conn_HasCapability c cap = Ok (cap_has c cap).
+Proof. reflexivity. Qed.
+
+Lemma go_SupportsCapability_eq c cap : go_client_Conn_SupportsCapability c cap = Ok (cap_has c cap).
+Proof. reflexivity. Qed.
+
 Lemma go_capSet_Size_eq c : go_client_capSet_Size c = Ok (cap_size c).
 Proof. reflexivity. Qed.
 
